@@ -25,7 +25,7 @@ TRUSTED = ["ocaml/driver/c02.ml: comparison of verdict and counterexample length
 def streams(tier, seed):
     if tier == "quick":
         return [dict(tag="main", count=80, seed=seed)]
-    return [dict(tag="main%d" % k, count=300, seed=seed * 1000 + k, extra={"child-runs": 4}) for k in range(4)]
+    return [dict(tag="main%d" % k, count=200, seed=seed * 1000 + k, extra={"child-runs": 4}) for k in range(4)]
 
 
 def search_streams(tier, seed, diffs):
@@ -37,9 +37,11 @@ MANIFEST = dict(
                 "least depth <= k at which a constrained execution from an initial valuation is in a bad state, None if there is none - for "
                 "ALL well-formed systems (array states compared with their init on the index range; executions of Spec/System.v when no "
                 "array state has an init). Algorithm layer (Model/Bmc.v = the loop of bmc.rs over an abstract correct solver, tied to the "
-                "real loop by a recording solver): C02_bmc_modes_agree (individual = joint checking), C02_bmc_no_missed_counterexample (a "
-                "reachable bad state within the bound is never answered Success; uses C04's well-formedness and faithfulness theorems). "
-                "NOT proved: every Fail of the loop is a real counterexample (converse of faithfulness) - covered per run by C03. "
+                "real loop by a recording solver): C02_bmc_model_exact (unless get_signal_at panics, the loop answers Fail j exactly when j is "
+                "the least depth <= k_max with a reachable bad state and Success exactly when there is none; repaired encoding, init "
+                "expressions in the class the encoding handles), C02_bmc_model_is_spec (= bmc_spec), C02_bmc_modes_agree (individual = "
+                "joint checking), C02_bmc_no_missed_counterexample. Uses C04's well-formedness and faithfulness theorems and their converse "
+                "(every model of the definitions is an execution, Proofs/BmcSound.v). "
                 "Tie to /repo: verdict and counterexample length of the real patronus::mc::bmc with real solvers (four capability "
                 "profiles, both modes, raw/simplified) vs the extracted bmc_spec on every run."),
     level_note=("Trusted: Coq kernel; SMT solvers assumed correct (two must agree with the reference); oracle runs only on systems with "
